@@ -269,6 +269,8 @@ func All() []Scenario {
 	blk := sx.Step{Block: true}
 	return []Scenario{
 		mapIterator(0, 1, 0, 2), mapIterator(1, 1, 0, 2), mapIterator(2, 2, 0, 2), mapIterator(3, 2, 1, 2),
+		// effective buffer size 1: the dispatcher has to be woken after every single item
+		mapIterator(3, 1, 0, 2), mapIterator(3, 1, 1, 2), mapIterator(2, 1, -1, 2),
 		mapIterator(3, 1, 2, 2), mapIterator(3, 2, 3, 2), mapIterator(4, 2, 0, 2), mapIterator(3, 0, 0, 2),
 		mapIterator(3, 3, 1, 2), mapIterator(4, 1, 3, 2), mapIterator(3, -1, -1, 3),
 		// sources longer than the in-flight limit, so that exceeding it is possible at all
@@ -277,6 +279,8 @@ func All() []Scenario {
 		mapStream(vals(0), 2, 0, 2, -1, -1, false),
 		mapStream(vals(3), 2, 0, 2, -1, -1, false),
 		mapStream(vals(3), 1, 2, 2, -1, -1, false),
+		mapStream(vals(3), 1, 0, 2, -1, -1, false),
+		mapStream(vals(3), 1, 1, 2, -1, -1, false),
 		mapStream(vals(4), 2, 1, 2, -1, -1, false),
 		mapStream(vals(3), 0, 3, 2, -1, -1, false),
 		mapStream(vals(3), 2, 1, 2, 1, -1, false),
